@@ -133,6 +133,21 @@ func zsimProbe13() { zsim.Probe("huge_burst") }
 
 // genSampler draws a sampler composition and its model.
 func genSampler(c *zsim.Choices, depth int) (zerolog.Sampler, *sModel) {
+	if depth == 0 && c.Chance(1, 30) {
+		// a long hand-over chain: dozens of BurstSamplers with tiny bursts, each the NextSampler
+		// of the one before, and a BasicSampler at the end
+		zsim.Probe("long_sampler_chain")
+		n := 33 + c.Intn(40)
+		var tail zerolog.Sampler = &zerolog.BasicSampler{N: 2}
+		tm := &sModel{kind: 0, n: 2}
+		for i := 0; i < n; i++ {
+			b := uint32(c.Intn(2))
+			p := []int64{10, 1000}[c.Intn(2)]
+			tail = &zerolog.BurstSampler{Burst: b, Period: time.Duration(p), NextSampler: tail}
+			tm = &sModel{kind: 1, burst: b, period: p, next: tm}
+		}
+		return tail, tm
+	}
 	k := c.Weighted(3, 5, 2)
 	if depth >= 2 && k != 0 {
 		k = c.Weighted(1, 1) // basic or burst without deeper nesting
